@@ -127,6 +127,16 @@ type c14RunCfg struct {
 	InitRunning  int         `json:"initially_running"`
 	InitHeld     int         `json:"initially_priority0"`
 	WatchdogSecs int         `json:"watchdog_s"`
+	// Witness selects a small deterministic scenario instead of the
+	// randomized schedule: "hold-giveup" = a process that ignores SIGTERM,
+	// on an instance that the operator holds before the container is
+	// cancelled and releases after the dispatcher gave up killing it.
+	Witness string `json:"witness,omitempty"`
+}
+
+func c14WitnessCfg(kind string) c14RunCfg {
+	return c14RunCfg{Containers: 3, Types: 1, K: 1200, KFault: 2500, WatchdogSecs: 120, Seed: 1, Witness: kind,
+		Actions: []c14Action{{Kind: "cancel", Victim: 0}}}
 }
 
 func c14GenCfg(rng *verifkit.Rand, thorough bool) c14RunCfg {
@@ -349,6 +359,7 @@ type c14World struct {
 	// number of crunch-run --detach commands currently sleeping in a
 	// slow-start VM's CrunchRunDetachDelay (process inserted, not answered)
 	slowInFlight int
+	witnessHeld  string
 	done         chan struct{}
 	loglines     []string
 }
@@ -1019,7 +1030,10 @@ func (w *c14World) setupVM(svm *test.StubVM) {
 	svm.Boot = now.Add(time.Duration(w.rnd(0, 5000)) * time.Microsecond)
 	svm.CrunchRunDetachDelay = time.Duration(w.rnd(0, 8000)) * time.Microsecond
 	svm.ArvMountMaxExitLag = time.Duration(w.rnd(0, 3000)) * time.Microsecond
-	if !w.isCalm() && w.chance(w.cfg.FaultyVMPct) {
+	if w.cfg.Witness == "hold-giveup" {
+		vm.kind = "unkillable"
+		vm.unkill = true
+	} else if !w.isCalm() && w.chance(w.cfg.FaultyVMPct) {
 		switch w.rnd(0, 11) {
 		case 9, 10:
 			vm.kind = "slow-start"
@@ -1137,7 +1151,7 @@ func (w *c14World) executeContainer(vm *c14VM, ctr arvados.Container) int {
 		w.victimHit[u] = true
 		w.mu.Unlock()
 		if first {
-			go w.hitVictim(u, kind)
+			go w.hitVictim(vm, u, kind)
 		}
 	}
 	if vm.unkill && w.victim[u] != "" {
@@ -1189,8 +1203,22 @@ func (w *c14World) executeContainer(vm *c14VM, ctr arvados.Container) int {
 }
 
 // hitVictim: some other API client changes a container while it runs.
-func (w *c14World) hitVictim(uuid, kind string) {
+func (w *c14World) hitVictim(vm *c14VM, uuid, kind string) {
 	time.Sleep(time.Duration(w.rnd(1, 15)) * time.Millisecond)
+	if w.cfg.Witness == "hold-giveup" {
+		// the operator holds the instance BEFORE the container is cancelled
+		g := w.curGen()
+		w.log.add(c14Event{Kind: "op-hold-call", Gen: g.n, VM: vm.id})
+		err := g.pool.SetIdleBehavior(cloud.InstanceID(vm.id), worker.IdleBehaviorHold)
+		t := w.log.add(c14Event{Kind: "op-hold-ret", Gen: g.n, VM: vm.id, OK: err == nil})
+		w.mu.Lock()
+		if err == nil {
+			vm.windows = append(vm.windows, c14Window{gen: g.n, from: t, why: "operator-hold"})
+			w.witnessHeld = vm.id
+		}
+		w.cond.Broadcast()
+		w.mu.Unlock()
+	}
 	ok := w.tq.C14Mutate(uuid, func(c *arvados.Container) bool {
 		switch kind {
 		case "cancel":
